@@ -197,7 +197,11 @@ impl AsyncFileSystem for AsyncOverlayFS {
         }
         match self.read_path(path).await {
             Ok(p) => p.exists().await,
-            Err(_) => Ok(false),
+            Err(err) => match err.kind() {
+                VfsErrorKind::FileNotFound => Ok(false),
+                // a failing layer must not make the entry look absent
+                _ => Err(err),
+            },
         }
     }
 
